@@ -978,6 +978,7 @@ func scenarios(th bool) []scenario {
 
 func TestCheck(t *testing.T) {
 	r := rep.New("C20", "exploration")
+	gate.ReportHangs(r)
 	klog.LogToStderr(false)
 	klog.SetOutput(io.Discard)
 	scs := scenarios(r.Thorough())
